@@ -18,13 +18,14 @@ func init() {
 
 func runC18(r *engine.Run) {
 	r.Rule("ARITH", "every integer + - * / % , every numeric conversion and every call with a panicking precondition (decimal.NewFromFloat) in the hand-written functions of core/currency is discharged by an accepted guard idiom holding on every feasible path (wrap check on an operand, subtrahend<=minuend, post-division check of a product with a non-zero factor, non-zero divisor, sign / NaN / 2^64 rejection before float->uint64, NaN and Inf rejection before NewFromFloat); an instruction with no accepted guard is reported, an unknown operator form is undecided")
-	r.Rule("AGREE-op", "each named helper computes its result with the operator its name promises, on its parameters in order (AddCoin c+b, MinusCoin c-b, MultCoin c*b, DistributeCoin c/d and c%d, the Int64/Float64 variants delegate to them after conversion)")
+	r.Rule("AGREE-op", "each named helper computes its result with the operator its name promises, on its parameters in order (AddCoin c+b, MinusCoin c-b, MultCoin c*b, DistributeCoin c/d and c%d, the Int64/Float64 variants delegate to them after conversion); ToZCN returns the Float64() of a decimal and does no floating-point arithmetic or integer-to-float conversion itself (scaling by 10^10 happens in decimal arithmetic, as in ParseZCN)")
 	r.Rule("ARG-finite", "every helper taking a float64 reports success (nil error) only by returning the result of another float helper applied to a value computed from that argument, or on paths where math.IsNaN(argument) tested false and the argument is bounded from above (IsInf false or a comparison with a constant): no shortcut returns an amount for NaN or +Inf; when the argument is folded into another value before it is handed on (a product), it tested not negative first")
 	r.NotDec = append(r.NotDec, "decimal-exponent semantics of ParseZCN/ToZCN (library arithmetic)", "format-then-parse round trip")
 	r.Assume = append(r.Assume, "Coin(e.IntPart()) in ParseZCN: range established through the decimal API (Sign()==-1 and GreaterThan(maxDecimal) rejections must hold on every path), not through integer guards")
 	arith(r)
 	agreeOp(r)
 	argFinite(r, "ARG-finite")
+	zcnDecimal(r, "AGREE-op")
 }
 
 func isGenFile(r *engine.Run, pos token.Pos) bool {
@@ -751,4 +752,47 @@ func argFinite(r *engine.Run, rule string) {
 	if n < 3 {
 		r.Anchor(rule, fmt.Errorf("unresolved anchor: %d returns of float-taking helpers found", n))
 	}
+}
+
+// zcnDecimal: the coin <-> token conversion scales by 10^10 in decimal
+// arithmetic: ToZCN contains no floating-point arithmetic of its own (the only
+// float it returns comes out of the decimal library), mirroring ParseZCN, which
+// shifts a decimal. A float division rounds twice (uint64 -> float64, then the
+// quotient) and format-then-parse stops being the identity above 2^53.
+func zcnDecimal(r *engine.Run, rule string) {
+	f := r.Fn(rule, pkgCur, "Coin", "ToZCN")
+	if f == nil {
+		return
+	}
+	bad := ""
+	engine.Instrs(f, func(in ssa.Instruction) {
+		switch x := in.(type) {
+		case *ssa.BinOp:
+			if b, ok := x.Type().Underlying().(*types.Basic); ok && b.Info()&types.IsFloat != 0 {
+				switch x.Op {
+				case token.ADD, token.SUB, token.MUL, token.QUO:
+					bad = "floating-point " + x.Op.String() + " at " + r.P.Pos(x.Pos())
+				}
+			}
+		case *ssa.Convert:
+			if b, ok := x.Type().Underlying().(*types.Basic); ok && b.Info()&types.IsFloat != 0 {
+				if sb, ok := x.X.Type().Underlying().(*types.Basic); ok && sb.Info()&types.IsInteger != 0 {
+					bad = "integer-to-float conversion at " + r.P.Pos(x.Pos())
+				}
+			}
+		}
+	})
+	fromDecimal := false
+	for _, ret := range engine.Returns(f) {
+		if len(ret.Results) != 2 || !nilConst(resultValue(ret, 1)) {
+			continue
+		}
+		if ex, ok := resultValue(ret, 0).(*ssa.Extract); ok {
+			if c, ok := ex.Tuple.(*ssa.Call); ok && extCalleeIs(c, "shopspring/decimal", "Decimal", "Float64") {
+				fromDecimal = true
+			}
+		}
+	}
+	r.Check(bad == "" && fromDecimal, rule, fn(f)+"|decimal scaling", r.P.Pos(f.Pos()), "the amount is scaled by the decimal library; ToZCN does no float arithmetic of its own",
+		"ToZCN no longer scales in decimal arithmetic ("+bad+"): the result is rounded twice, so formatting then parsing an amount above 2^53 units returns another amount")
 }
